@@ -50,7 +50,7 @@ func (c13) NRuns(tier string) int {
 	if tier == "thorough" {
 		return 1000000
 	}
-	return 3000
+	return 12000
 }
 func (c13) Rule() string {
 	return "scenario kinds: cancel (a consumer in NextPackage/NextPackageUntil while packets arrive asynchronously, a canceller cancels its own or the connection's context at a scheduled step; then a send - or the flush of a message that exactly filled its packets - with the cancelled context), close-recv (Close while a consumer is blocked in a receive on the same channel), closed-calls (every API call after Close, double Close), conn-close (Conn.Close with 0..2 logical channels), close-queue (Close with 0..capacity+3 abandoned packages queued, reader possibly blocked on a full queue; logout answered, answered late or never), close-send (Close racing SendPackage on the same channel); every sync point is a seeded scheduling choice; bounded liveness = no client task still blocked at quiescence and Close within 60s of simulated time; non-trivial = the cancel/close landed while another task was inside a call on the channel; distinct = distinct (kind, schedule-trace hash)"
